@@ -1,6 +1,6 @@
 (* C15 - extended attributes read back exactly as set: the proved part is the packing of an attribute list
    into its storage area *)
-From E2V Require Import Xattr.XattrPack Xattr.XattrProofs.
+From E2V Require Import Xattr.XattrPack Xattr.XattrProofs Xattr.XattrSort Xattr.XattrSortProofs.
 Local Open Scope N_scope.
 
 (* whenever the library's own space estimate says the list fits, every entry header lies below the
@@ -32,4 +32,26 @@ Print Assumptions xattr_values_disjoint.
 Example place_example :
   place [mkXa 3 5 false; mkXa 10 0 false; mkXa 4 70000 true; mkXa 1 9 false] 0 988 =
   ([(0, 980, 8); (20, 980, 0); (48, 0, 0); (68, 968, 12)], 88, 968) /\ fits [mkXa 3 5 false; mkXa 1 9 false] 64 = true /\ fits [mkXa 3 5 false; mkXa 1 9 false] 63 = false.
+Proof. vm_compute. repeat split; reflexivity. Qed.
+
+(* the attribute block stays sorted by (name index, name length, name bytes) under the library's insertion
+   (xattr_find_position + memmove), the inserted name is present and nothing else changes, and on a sorted
+   block the kernel's early-exit lookup finds exactly the names that are stored: an attribute that was set
+   is found again by every reader that relies on the order *)
+Theorem xattr_block_insert_sorted : forall l k, sortedb l = true ->
+  sortedb (insert_key l k) = true /\
+  (forall y, In y (insert_key l k) <-> y = k \/ In y l) /\
+  (forall y, sorted_lookup (insert_key l k) y = true <-> y = k \/ In y l).
+Proof.
+  intros l k S. rewrite insert_key_ins. apply sortedb_ssorted in S.
+  pose proof (ins_sorted l k S) as S'. split; [apply sortedb_ssorted; assumption|].
+  assert (M : forall y, In y (ins l k) <-> y = k \/ In y l) by (intros y; split; [apply in_ins|apply in_ins_back]).
+  split; [exact M|]. intros y. rewrite <- M. split; [apply sorted_lookup_sound|apply sorted_lookup_complete; assumption].
+Qed.
+Print Assumptions xattr_block_insert_sorted.
+
+Example sort_example :
+  insert_key [mkKey 1 [97;97;97]; mkKey 1 [99;99;99]] (mkKey 1 [98;98;98]) = [mkKey 1 [97;97;97]; mkKey 1 [98;98;98]; mkKey 1 [99;99;99]] /\
+  sortedb [mkKey 1 [99;99;99]; mkKey 1 [98;98;98]; mkKey 1 [97;97;97]] = false /\
+  sorted_lookup [mkKey 1 [99;99;99]; mkKey 1 [98;98;98]; mkKey 1 [97;97;97]] (mkKey 1 [97;97;97]) = false.
 Proof. vm_compute. repeat split; reflexivity. Qed.
